@@ -178,18 +178,30 @@ theorem cli_enums_generated :
 the repeated options (inside every option family) and of the input files are parsed to the same record — both
 rejected, or both accepted with the same configuration, files and cache size -/
 theorem argument_order_irrelevant (a b : List Str)
-    (h : Args.SameUpToFamilyOrder (a.map Args.lex) (b.map Args.lex)) : Args.parseArgs a = Args.parseArgs b :=
+    (h : Args.SameUpToFamilyOrder (Args.lexAll a) (Args.lexAll b)) : Args.parseArgs a = Args.parseArgs b :=
   Args.parseArgs_order_independent a b h
 
-/-- in the form a user reads: swapping two neighbouring arguments of different families changes nothing -/
+/-- in the form a user reads: swapping two neighbouring arguments of different families changes nothing — on command
+lines without a BARE optional-valued option (`--merge` / `--group-by` / `--combine` written without `=value`) -/
 theorem swap_neighbours (l₁ l₂ : List Str) (s₁ s₂ : Str)
-    (h : Args.sameFamily (Args.lex s₁) (Args.lex s₂) = false) :
+    (h : Args.sameFamily (Args.lex s₁) (Args.lex s₂) = false)
+    (hb : Args.NoBareOptValue (l₁ ++ s₁ :: s₂ :: l₂)) :
     Args.parseArgs (l₁ ++ s₁ :: s₂ :: l₂) = Args.parseArgs (l₁ ++ s₂ :: s₁ :: l₂) :=
-  Args.swap_adjacent l₁ l₂ s₁ s₂ h
+  Args.swap_adjacent l₁ l₂ s₁ s₂ h hb
+
+/-- the one place where the position of an argument matters to clap itself: a bare optional-valued option takes the
+argument after it as its value unless that looks like an option (`--merge f.json` groups by the text `f.json`;
+`f.json --merge` and `--merge --unique` do not).  Found by the correspondence run when input files were
+interleaved with the options; the model follows clap (`Args.lexAll`), the theorems are stated over its tokens. -/
+theorem bare_merge_takes_the_next_argument :
+    Args.lexAll ["--merge".toList, "f.json".toList] = [.opt .group (some "f.json".toList)] ∧
+    Args.lexAll ["f.json".toList, "--merge".toList] = [.file "f.json".toList, .opt .group none] ∧
+    Args.lexAll ["--merge".toList, "--unique".toList] = [.opt .group none, .opt .unique none] :=
+  Args.bare_merge_takes_next
 
 /-- hence the whole run: same result, same standard output, same standard error -/
 theorem run_argument_order_irrelevant (orc : Oracles) (a b : List Str)
-    (h : Args.SameUpToFamilyOrder (a.map Args.lex) (b.map Args.lex))
+    (h : Args.SameUpToFamilyOrder (Args.lexAll a) (Args.lexAll b))
     (srcs : List Str → List Source) (wOut wErr : Writer) :
     (Args.parseArgs a).map (fun p => run orc p.cfg (srcs p.files) wOut wErr)
       = (Args.parseArgs b).map (fun p => run orc p.cfg (srcs p.files) wOut wErr) := by
